@@ -24,14 +24,25 @@ class Prop(c14.Prop):
     THEOREMS = THEOREMS
     QUICK_CASES = 390
     THOROUGH_CASES = 6500
-    RULE = ("failing load attempts: 13 fault kinds (cycled) x user classes on/off (7 variants) x single / multi-file x nested "
-            "loads x global repository; non-trivial = the attempt failed after at least one model object existed "
+    RULE = ("failing load attempts: 13 fault kinds (cycled) x class of the exception user code raises at the failure point "
+            "(cycled per round of the fault table: ordinary Exception, textX's TextXSemanticError, and failures that are "
+            "not Exception subclasses: KeyboardInterrupt, SystemExit, GeneratorExit, user-defined BaseException; nested "
+            "loads draw theirs at random, swallowed or propagated) x user classes on/off (7 variants) x single / "
+            "multi-file x nested loads x global repository; non-trivial = the attempt failed after at least one model object existed "
             "(an event was logged or a class was instrumented)")
     MODELLED = (c14.Prop.MODELLED + "; roots modelled: class instrumentation state and _tx_obj_attrs keys; history: the later attempt of the probe "
                 "(repaired files, same metamodel) is compared with runNext on runHist (ok, events, snapshots); weakref/gc "
                 "liveness is observed on the implementation only (census of live instances after gc.collect())")
     PROBE = True
     FAULTS = [i for i, f in enumerate(lt.FAULTS) if f[0] != "none"]
+
+    def gen(self, rng, n, tier):
+        # fault table (every failure point) x class of the exception user code raises there: round r of the fault
+        # table uses lt.EXC_CYCLE[r] (ordinary exception / textX's own error / KeyboardInterrupt / SystemExit /
+        # GeneratorExit / user-defined BaseException); the faults of nested loads draw their class at random
+        k = len(self.FAULTS)
+        for i in range(n):
+            yield lt.gen_case(rng.fork(str(i)), self.FAULTS[i % k], exc_index=i // k)
 
     def model_req(self, case, obs):
         # history: the failing attempt, then the repaired tree with the same metamodel (the probe of run_case)
